@@ -1,6 +1,7 @@
 #!/usr/bin/env python3
 """C13 - output is a deterministic function of project and configuration."""
 import hashlib
+import copy
 import json
 import os
 import random
@@ -104,6 +105,19 @@ def main():
             if len(set(c["name"] for c in p["controllers"])) != len(p["controllers"]):
                 continue
             projects.append(p)
+    if not a.replay:
+        # deliberate: every enum type of the universe used by one project, both enum flags on (anything that orders
+        # enums, their values or their validators by something else than a total key shows within a few runs)
+        for both in (True, False):
+            base = copy.deepcopy(projects[0 if both else 1])
+            c0 = base["controllers"][0]
+            c0["methods"].append({
+                "name": "EnumAll", "verb": "GET", "route": "/enumall", "hidden": False, "deprecated": False, "security": [],
+                "ret": "string", "errtype": "error", "response": None, "errors": [], "descr": "", "file": 0,
+                "params": [{"name": "e%d" % i, "ctx": False, "loc": "query" if i % 2 == 0 else "header", "alias": None, "type": t,
+                            "pointer": False, "validator": None, "slice": False} for i, t in enumerate(P.ENUMS)]})
+            base["flags"] = {"generateEnumValidator": True, "validateTopLevelOnlyEnum": both}
+            projects.append(base)
     moddir = os.path.join(WORK, PROP, "mod")
     shutil.rmtree(moddir, ignore_errors=True)
     P.make_module(moddir)
@@ -222,20 +236,22 @@ Print propfail.
     if not a.replay or "sequence" in json.load(open(a.replay))["input"]:
         if a.replay:
             rp = json.load(open(a.replay))
-            seqs = [(rp.get("engine", "gin"), [(x["edit"], x["project"]) for x in rp["input"]["sequence"]])]
+            seqs = [(rp.get("engine", "gin"), [(x["edit"], x["project"], x.get("extra")) for x in rp["input"]["sequence"]])]
         else:
             bases = [p for p in projects if p["controllers"][0]["methods"]][:(2 if a.tier == "quick" else 8)]
             seqs = [(ENGINES[i % len(ENGINES)], seqleg.edits(rng, b)) for i, b in enumerate(bases)]
         import concurrent.futures
         with concurrent.futures.ThreadPoolExecutor(max_workers=4) as ex:
-            ran = list(ex.map(lambda x: seqleg.run_sequence(PROP, "q%d" % x[0], x[1][1], engine=x[1][0]), enumerate(seqs)))
+            ran = list(ex.map(lambda x: seqleg.run_sequence(PROP, "q%d" % x[0], x[1][1], engine=x[1][0], over=True), enumerate(seqs)))
         hrows, hmeta = [], []
         for (e, seq), steps in zip(seqs, ran):
             seqstats["sequences"] += 1
             seqstats["steps"] += len(steps)
             for si, st in enumerate(steps):
                 for art in ("spec", "routes"):
-                    hs = [hashlib.md5(st[w][art]).hexdigest() if st[w][art] is not None else "absent" for w in ("fresh", "inproc")]
+                    # a refused edit writes nothing: the file of the previous edit may rightly still be there
+                    ws = ("fresh", "inproc", "fresh_over") if st["fresh"]["exit"] == 0 else ("fresh", "inproc")
+                    hs = [hashlib.md5(st[w][art]).hexdigest() if st[w][art] is not None else "absent" for w in ws]
                     hrows.append("(%d, %s)" % (len(hmeta), coq_list([coq_bytes(x) for x in hs])))
                     hmeta.append((e, steps, si, art, hs))
         sbody = ("From Gleece Require Import Base.Bytes Model.Determinism.\nFrom Coq Require Import String.\n"
@@ -247,14 +263,17 @@ Print propfail.
             e, steps, si, art, hs = hmeta[i]
             import difflib
             fa = (steps[si]["fresh"][art] or b"").decode("utf-8", "replace").splitlines()
-            ia = (steps[si]["inproc"][art] or b"").decode("utf-8", "replace").splitlines()
+            other = "inproc" if hs[0] != hs[1] else "fresh_over"
+            ia = (steps[si][other][art] or b"").decode("utf-8", "replace").splitlines()
             res.violation({"kind": "property-fails-on-implementation", "leg": "sequence of generations in one process",
                            "engine": e, "input": {"sequence": seqleg.describe_sequence(steps, si)}, "failing_step": si,
-                           "edit": steps[si]["label"], "artifact": art, "hashes_fresh_vs_same_process": hs,
-                           "diff": list(difflib.unified_diff(fa, ia, "fresh-process", "same-process", lineterm="", n=0))[:30],
+                           "edit": steps[si]["label"], "artifact": art, "hashes_fresh__same_process__fresh_over_previous_output": hs,
+                           "differs": other,
+                           "diff": list(difflib.unified_diff(fa, ia, "fresh-process", other, lineterm="", n=0))[:30],
                            "claim": "the artifact is a function of the sources and the configuration on disk, regardless of "
-                                    "process: a generation that follows others in one process writes the bytes a fresh "
-                                    "process writes"})
+                                    "process and of what an earlier run left at the output path: a generation that follows "
+                                    "others in one process, or that overwrites an earlier output file, writes the bytes a fresh "
+                                    "process writes into an empty directory"})
     res.coverage["generation_sequences"] = seqstats
     multi = sum(1 for p in projects if any(len(set(m["file"] for m in c["methods"])) > 1 for c in p["controllers"]))
     res.coverage.update({
